@@ -280,7 +280,7 @@ func Run(cfg fw.Config, rec *fw.Rec) {
 	rec.Rule = "each abstract spec (random node graph, guards, actions, all error settings, plus a start node whose message-branch patterns cover every JSON shape at the top level: map, array, bare string, bare variable, number, boolean, null, property variable) is rendered as Go structures, JSON, YAML via jsccast/yaml, and through sio's URL loader (YAML and JSON files) and inline loader, each with inline patterns and with JSON-text patterns under patternSyntax json, each compiled once / three times / compiled-serialised-reloaded-compiled (42 variants incl. Go structures whose inline patterns are typed Go containers such as map[string]string, []string, []int); all must compile and give identical traces on shared message sequences; unknown interpreter / pattern syntax / branching type must fail at Compile; non-trivial = spec whose trace has >= 3 strides; distinct by spec"
 	rec.Required = []string{"variants_agree", "negative_unknown_interpreter", "negative_unknown_pattern_syntax", "negative_unknown_branching_type", "string_pattern_as_json_text", "traces_with_scalar_messages"}
 	rec.Assume = []string{"specs are deterministic", "the YAML rendering is block style with JSON flow scalars/collections for patterns"}
-	n := cfg.Pick(400, 6000)
+	n := cfg.Pick(400, 20000)
 	fw.Parallel(cfg.Workers, n, func(w, i int) {
 		r := cfg.Rng("c13", i)
 		u := &gen.Uid{Prefix: fmt.Sprintf("v%d_", i)}
